@@ -185,6 +185,15 @@ def r2(ctx: Ctx) -> None:
     coarse = [t for st in c if st[0] == "assert" for t in (set(st[1][1]) if st[1][0] == "and" else {st[1]})
               if _area_sum_test(t) and atoms_of(t, lambda x: x[0] == "c" and x[1][0] == "a" and x[1][2] == "area_epsilon")]
     ctx.site(chk.where, "area-sum tolerance is finer than the tolerance of the pairwise overlap test", coarse=len(coarse))
+    # ... and it is an area: a distance tolerance alone (absolute, ~1e-11 x the short side) is below the rounding error of
+    # the area sum once the die is large (70000.7 x 10000.1), and a valid die would be rejected
+    area_tests = [t for st in c if st[0] == "assert" for t in (set(st[1][1]) if st[1][0] == "and" else {st[1]}) if _area_sum_test(t)]
+    for t in area_tests:
+        eps_a, len_a = _area_bound_atoms(t)
+        ctx.site(chk.where, "area-sum tolerance has the dimension of an area (distance tolerance x a side of the die)", tolerance=[show(x) for x in eps_a], scaled_by=[show(x) for x in len_a])
+        if not len_a and not atoms_of(t, lambda x: x[0] == "c" and x[1][0] == "a" and x[1][2] == "area_epsilon"):
+            ctx.report(chk.where, "selfcheck-area-dimension " + show(t)[:140], "the area sum is compared with a bare distance tolerance: for a die with large coordinates the "
+                       "rounding error of the sum exceeds it and a valid description is rejected", lineno=chk.node.lineno)
     if coarse:
         ctx.report(chk.where, "selfcheck-area-tolerance", "the area-sum assertion uses the area tolerance, the very slack the pairwise overlap test already "
                    "grants: a thin real overlap (below area_epsilon) passes both checks and an overlapping description is accepted", lineno=chk.node.lineno)
@@ -252,9 +261,24 @@ def _area_sum_test(t: S) -> bool:
         return False
     if not atoms_of(inner, lambda x: x[0] == "a" and x[2] == "area" and not contains(x, ("g", "sum")) and x[1][0] != "b"):
         return False
-    # the bound must be a tolerance, not a number of the order of the die
+    # the bound must be a tolerance (possibly scaled by a size of the die), not a number of the order of the die
     others = [a for a in p.atoms() if a != absd[0]]
-    return bool(others) and all(is_eps_atom(a) for a in others)
+    return bool(others) and any(is_eps_atom(a) for a in others) and all(is_eps_atom(a) or _die_length(a) for a in others)
+
+
+def _die_length(a: S) -> bool:
+    """a side of the die: self.width / self.height, or max / min of such"""
+    if a[0] == "a" and a[2] in ("width", "height", "w", "h"):
+        return True
+    return a[0] == "c" and a[1] in (("g", "max"), ("g", "min")) and all(_die_length(x) for x in a[2])
+
+
+def _area_bound_atoms(t: S):
+    """(tolerance atoms, die-length atoms) of the bound of an area-sum test"""
+    u = t[1] if t[0] == "not" else t
+    p = to_poly(u[1])
+    others = [a for a in p.atoms() if not (a[0] == "c" and a[1] == ("g", "abs"))]
+    return [a for a in others if is_eps_atom(a)], [a for a in others if _die_length(a)]
 
 
 def _nested_pairs_overlap(c: tuple) -> bool:
